@@ -68,6 +68,9 @@ class FakePull:
         self.sim.net.inbox[addr] = self
 
     def recv_multipart(self):
+        owner = getattr(self, "owner", None)
+        if owner is not None:
+            owner.acts.append(["collect"])      # one `_recv_one` took a frame list off the queue
         return list(self.queue.pop(0))
 
 
@@ -85,18 +88,22 @@ class _Kill(BaseException):
 
 
 class Coro:
-    """Runs `fn` in a thread with strict hand-off: the thread only runs inside `resume()`.
-    A blocking poll (timeout != 0) consumes one permit; without a permit it yields to the harness.
-    One `resume()` == one iteration of the loop that `fn` executes."""
+    """Runs `fn` in a thread with strict hand-off: the thread only runs inside `start()`/`resume()`.
+    Every blocking poll (timeout != 0) hands control back to the harness; `wait` then holds the
+    timeout the loop is blocked with (None = no timeout: only an arriving packet wakes it).
+    `start()` runs up to the first blocking poll; one `resume()` == one iteration of the loop
+    that `fn` executes (from the return of one blocking poll to the entry of the next)."""
+
+    NOT_BLOCKED = object()
 
     def __init__(self, sim, fn):
         self.sim, self.fn = sim, fn
         self.done = False
         self.result = None
         self.exc = None
-        self.permits = 0
         self.kill = False
         self.started = False
+        self.wait = Coro.NOT_BLOCKED
         self.go = threading.Semaphore(0)
         self.back = threading.Semaphore(0)
         self.thread = threading.Thread(target=self._run, daemon=True)
@@ -112,37 +119,43 @@ class Coro:
         except BaseException as e:  # noqa: BLE001 - the result to compare
             self.exc = e
         self.done = True
+        self.wait = Coro.NOT_BLOCKED
         self.back.release()
 
-    def resume(self):
-        if self.done:
-            return
-        self.permits = 1
+    def _switch(self):
         self.sim.active = self
-        if not self.started:
-            self.started = True
-            self.thread.start()
         self.go.release()
         self.back.acquire()
         self.sim.active = None
 
-    def block(self):
-        if self.permits > 0:
-            self.permits -= 1
+    def start(self):
+        if not self.started:
+            self.started = True
+            self.thread.start()
+            self._switch()
+
+    def resume(self):
+        if self.done:
             return
+        if not self.started:
+            self.start()
+            if self.done:
+                return
+        self._switch()
+
+    def block(self, timeout):
+        """in the coroutine thread, at a blocking poll"""
+        self.wait = timeout
         self.back.release()
         self.go.acquire()
+        self.wait = Coro.NOT_BLOCKED
         if self.kill:
             raise _Kill()
-        self.permits -= 1
 
     def stop(self):
         if self.started and not self.done:
             self.kill = True
-            self.sim.active = self
-            self.go.release()
-            self.back.acquire()
-            self.sim.active = None
+            self._switch()
         if self.started:
             self.thread.join(timeout=5)
 
@@ -156,12 +169,13 @@ class FakePoller:
     def poll(self, timeout=None):
         co = self.sim.active
         if timeout != 0:
-            if co is not None and threading.current_thread() is co.thread:
-                co.block()
             owner = getattr(self, "owner", None)
             if owner is not None:
-                # a blocking poll is where one iteration of an endpoint loop begins receiving
-                owner.acts.append(["recvall", owner.loop])
+                # the timeout every blocking poll is entered with (translator cross-check)
+                owner.poll_timeouts.append((owner.loop, timeout))
+            if co is not None and threading.current_thread() is co.thread:
+                # `timeout=None` blocks until a packet arrives; a finite timeout until the harness lets time pass
+                co.block(timeout)
         return [(self.sock, 1)] if self.sock.queue else []
 
 
@@ -196,6 +210,26 @@ class LoggingDict(dict):
         self._log.append(["pop", self._intern(k)])
         self.popped.append(k)
         return super().pop(k, *a)
+
+
+class Batch(list):
+    """What the wrapped `recv_messages` returns: a list whose iteration tells the endpoint which
+    messages the loop body actually took (`for m in recv_messages(...)`)."""
+
+    def __init__(self, items, ep):
+        super().__init__(items)
+        self._ep = ep
+        self.taken = 0
+
+    def __iter__(self):
+        for i in range(len(self)):
+            m = list.__getitem__(self, i)
+            self.taken = i + 1
+            self._ep.on_take(m)
+            yield m
+
+    def untaken(self):
+        return [list.__getitem__(self, i) for i in range(self.taken, len(self))]
 
 
 class StubProc:
@@ -318,9 +352,17 @@ class Ep:
         comms = sim.comms
         sim.cur = a
         sim.clock.setdefault(a, 0)
-        self.acts = []            # app-level actions observed during the current op
+        self.acts = []            # actions observed during the current op, in order (Drive/C06.lean `actStep`)
         self.sent = []            # (host name, repr(msg)) accepted by sender.send during the current op
-        self.got = []             # messages returned by recv_messages during the current op
+        self.accepted = []        # non-Ack messages returned by `_recv_one` during the current op
+        self.handled = []         # messages the loop body took / recv_events returned during the current op
+        self.taken_msgs = []      # every message the loop body took during the current op (Acks included)
+        self.staged = []          # Events taken inside Bridge.recv_events, not yet returned (spans ops)
+        self.collecting = None    # non-Ack messages accepted inside the recv_messages call in progress
+        self.batch = None         # the Batch the loop is iterating over
+        self.discarded = 0        # accepted messages discarded during the current op
+        self.aborted = None       # why the current op's iteration was abandoned
+        self.poll_timeouts = []   # (loop, timeout) of every blocking poll
         self.fed = 0              # sender.ack calls during the current op
         self.raised = False
         self.errors = 0
@@ -329,6 +371,7 @@ class Ep:
         self.coro_fn = None
         self.listener = comms.Listener(sim.addr(a))
         self.listener.poller.owner = self
+        self.listener.socket.owner = self
         self.sender = comms.ReliableSender(self.listener.address, grace_ms)
         hd = LoggingDict(self.acts, sim.host_id)
         self.sender.hosts = hd
@@ -350,8 +393,19 @@ class Ep:
 
         def send(host, m):
             ep.acts.append(["send", ep.sim.host_id(host), ep.sim.msg_id(m)])
+            w0 = len(ep.sim.net.emitted)
+            s0 = ep.sim.net.sunk
             r = real_send(host, m)
-            ep.sent.append((host, repr(m)))       # accepted (did not raise)
+            # accepted (did not raise); the idx it travels under is read off the Syn frame it put on the wire
+            idx = None
+            for _ad, fr in ep.sim.net.emitted[w0:]:
+                try:
+                    y = pickle.loads(fr[0])
+                    if isinstance(y, ep.sim.msg.Syn):
+                        idx = y.idx
+                except Exception:  # noqa: BLE001
+                    pass
+            ep.sent.append((host, repr(m), idx))
             return r
 
         def maybe_retry():
@@ -367,18 +421,33 @@ class Ep:
             return real_ack(idx)
 
         def recv_messages(*a, **k):
-            r = real_recv(*a, **k)
-            ep.got.extend(r)
-            return r
+            ep.collecting = []
+            try:
+                r = real_recv(*a, **k)
+            except _Kill:
+                raise
+            except BaseException:
+                # the local `messages` list of recv_messages is gone with the exception
+                ep.discarded += len(ep.collecting)
+                ep.collecting = None
+                raise
+            ep.collecting = None
+            ep.batch = Batch(r, ep)
+            return ep.batch
 
         def _recv_one(t):
             try:
-                return real_one(t)
+                m = real_one(t)
             except _Kill:
                 raise
             except BaseException:
                 ep.errors += 1
                 raise
+            if m is not None and not isinstance(m, ep.sim.msg.Ack):
+                ep.accepted.append(m)
+                if ep.collecting is not None:
+                    ep.collecting.append(m)
+            return m
         s.send, s.maybe_retry, s.ack = send, maybe_retry, ack
         l.recv_messages, l._recv_one = recv_messages, _recv_one
 
@@ -428,6 +497,42 @@ class Ep:
         self.loop = "Executor.recv_loop"
         self.coro_fn = x.recv_loop
 
+    # -- application level: what the loop body takes
+    def stages(self, m):
+        """inside Bridge.recv_events an Event is only collected; the controller gets it when the call returns"""
+        return bool(self.kind == "bridge" and self.loop == "Bridge.recv_events"
+                    and isinstance(m, self.sim.bridge_mod.Event))
+
+    def on_take(self, m):
+        st = self.stages(m)
+        self.acts.append(["take", self.loop, st])
+        self.taken_msgs.append(m)
+        if isinstance(m, self.sim.msg.Ack):
+            return
+        if st:
+            self.staged.append(m)
+        else:
+            self.handled.append(m)
+
+    def pending(self):
+        b = self.batch.untaken() if self.batch is not None else []
+        return b, list(self.staged)
+
+    def commit(self, events):
+        """Bridge.recv_events returned `events`"""
+        self.acts.append(["commit"])
+        self.handled.extend(events)
+        self.staged = []
+
+    def abandon(self, cause, loop):
+        """the iteration is over and something accepted was neither taken nor returned"""
+        b, st = self.pending()
+        self.acts.append(["abort"])
+        self.discarded += len(st) + sum(1 for m in b if not isinstance(m, self.sim.msg.Ack))
+        self.staged = []
+        self.batch = None
+        self.aborted = (cause, loop)
+
     # -- state digest (same shape as Drive/C06.lean `digest`)
     def digest(self, wire_from, extra=None):
         sim = self.sim
@@ -439,7 +544,10 @@ class Ep:
         d = {
             "ep": self.a,
             "wire": [[sim.addr_id(ad), [sim.frame_json(f) for f in fr]] for ad, fr in sim.net.emitted[wire_from:]],
-            "delivered": [sim.parsed_json(m) for m in self.got if not isinstance(m, sim.msg.Ack)],
+            "accepted": [sim.parsed_json(m) for m in self.accepted],
+            "handled": [sim.parsed_json(m) for m in self.handled],
+            "pending": sum(len(x) for x in self.pending()),
+            "discarded": self.discarded,
             "inflight": infl,
             "idx": s.idx,
             "raised": self.raised,
@@ -462,7 +570,12 @@ class Ep:
     def begin(self):
         self.sim.cur = self.a
         del self.acts[:]
-        self.got = []
+        self.accepted = []
+        self.handled = []
+        self.taken_msgs = []
+        self.discarded = 0
+        self.aborted = None
+        self.poll_timeouts = []
         self.fed = 0
         self.raised = False
         self.errors = 0
